@@ -275,7 +275,7 @@ pub(crate) mod __verif {
 
     /// One template against the specification. `mb` selects a haystack whose match and group contain a 2-byte
     /// character; whether group 1 (named `n`) participated is symbolic.
-    fn check_template(tmpl: &str, mb: bool) {
+    fn run_template(tmpl: &str, mb: bool) -> (bool, bool) {
         let re = regex_goal();
         let text = if mb { "w\u{e9}yz" } else { "wxyz" };
         let (whole, grp) = if mb { ((1, 4), (1, 3)) } else { ((1, 3), (2, 3)) };
@@ -287,14 +287,19 @@ pub(crate) mod __verif {
         let mut exp = [0u8; 24];
         let n = spec_expand(tmpl.as_bytes(), text.as_bytes(), whole, if g1 { Some(grp) } else { None }, b"n", &mut exp);
         let ob = out.as_bytes();
-        assert!(ob.len() == n, "expansion length equals the template specification");
+        let len_ok = ob.len() == n;
         // (no assume here: several templates are checked in sequence and an empty expansion must not cut the path)
         let k: usize = kani::any();
-        if k < n {
-            assert!(ob[k] == exp[k], "expansion content equals the template specification");
-        }
+        let content_ok = !(len_ok && k < n) || ob[k] == exp[k];
         core::mem::forget(out);
         core::mem::forget(m);
+        (len_ok, content_ok)
+    }
+
+    fn check_template(tmpl: &str, mb: bool) {
+        let r = run_template(tmpl, mb);
+        assert!(r.0, "expansion length equals the template specification");
+        assert!(r.1, "expansion content equals the template specification");
     }
 
     // BEGIN GENERATED j2c (contracts/gen/gen_api.py)
@@ -304,11 +309,21 @@ pub(crate) mod __verif {
     #[kani::proof]
     #[kani::unwind(7)]
     fn j2c_literal() {
-        check_template("", false);
-        check_template("a", false);
-        check_template("ab}", false);
-        check_template("é{", false);
-        check_template("}{a", false);
+        let r = run_template("", false);
+        assert!(r.0, "template ``: expansion length equals the template specification");
+        assert!(r.1, "template ``: expansion content equals the template specification");
+        let r = run_template("a", false);
+        assert!(r.0, "template `a`: expansion length equals the template specification");
+        assert!(r.1, "template `a`: expansion content equals the template specification");
+        let r = run_template("ab}", false);
+        assert!(r.0, "template `ab}}`: expansion length equals the template specification");
+        assert!(r.1, "template `ab}}`: expansion content equals the template specification");
+        let r = run_template("é{", false);
+        assert!(r.0, "template `é{{`: expansion length equals the template specification");
+        assert!(r.1, "template `é{{`: expansion content equals the template specification");
+        let r = run_template("}{a", false);
+        assert!(r.0, "template `}}{{a`: expansion length equals the template specification");
+        assert!(r.1, "template `}}{{a`: expansion content equals the template specification");
         kani::cover!(true, "end of the harness is reachable (vacuity guard)");
     }
 
@@ -318,14 +333,30 @@ pub(crate) mod __verif {
     #[kani::proof]
     #[kani::unwind(7)]
     fn j2c_dollar() {
-        check_template("$", false);
-        check_template("$$", false);
-        check_template("$$$", false);
-        check_template("a$", false);
-        check_template("$a", false);
-        check_template("$$1", false);
-        check_template("$}", false);
-        check_template("$é", false);
+        let r = run_template("$", false);
+        assert!(r.0, "template `$`: expansion length equals the template specification");
+        assert!(r.1, "template `$`: expansion content equals the template specification");
+        let r = run_template("$$", false);
+        assert!(r.0, "template `$$`: expansion length equals the template specification");
+        assert!(r.1, "template `$$`: expansion content equals the template specification");
+        let r = run_template("$$$", false);
+        assert!(r.0, "template `$$$`: expansion length equals the template specification");
+        assert!(r.1, "template `$$$`: expansion content equals the template specification");
+        let r = run_template("a$", false);
+        assert!(r.0, "template `a$`: expansion length equals the template specification");
+        assert!(r.1, "template `a$`: expansion content equals the template specification");
+        let r = run_template("$a", false);
+        assert!(r.0, "template `$a`: expansion length equals the template specification");
+        assert!(r.1, "template `$a`: expansion content equals the template specification");
+        let r = run_template("$$1", false);
+        assert!(r.0, "template `$$1`: expansion length equals the template specification");
+        assert!(r.1, "template `$$1`: expansion content equals the template specification");
+        let r = run_template("$}", false);
+        assert!(r.0, "template `$}}`: expansion length equals the template specification");
+        assert!(r.1, "template `$}}`: expansion content equals the template specification");
+        let r = run_template("$é", false);
+        assert!(r.0, "template `$é`: expansion length equals the template specification");
+        assert!(r.1, "template `$é`: expansion content equals the template specification");
         kani::cover!(true, "end of the harness is reachable (vacuity guard)");
     }
 
@@ -335,15 +366,33 @@ pub(crate) mod __verif {
     #[kani::proof]
     #[kani::unwind(8)]
     fn j2c_numbered() {
-        check_template("$0", false);
-        check_template("$1", false);
-        check_template("$2", false);
-        check_template("$01", false);
-        check_template("$10", false);
-        check_template("$1a", false);
-        check_template("$1$1", false);
-        check_template("a$0b", false);
-        check_template("$1$", false);
+        let r = run_template("$0", false);
+        assert!(r.0, "template `$0`: expansion length equals the template specification");
+        assert!(r.1, "template `$0`: expansion content equals the template specification");
+        let r = run_template("$1", false);
+        assert!(r.0, "template `$1`: expansion length equals the template specification");
+        assert!(r.1, "template `$1`: expansion content equals the template specification");
+        let r = run_template("$2", false);
+        assert!(r.0, "template `$2`: expansion length equals the template specification");
+        assert!(r.1, "template `$2`: expansion content equals the template specification");
+        let r = run_template("$01", false);
+        assert!(r.0, "template `$01`: expansion length equals the template specification");
+        assert!(r.1, "template `$01`: expansion content equals the template specification");
+        let r = run_template("$10", false);
+        assert!(r.0, "template `$10`: expansion length equals the template specification");
+        assert!(r.1, "template `$10`: expansion content equals the template specification");
+        let r = run_template("$1a", false);
+        assert!(r.0, "template `$1a`: expansion length equals the template specification");
+        assert!(r.1, "template `$1a`: expansion content equals the template specification");
+        let r = run_template("$1$1", false);
+        assert!(r.0, "template `$1$1`: expansion length equals the template specification");
+        assert!(r.1, "template `$1$1`: expansion content equals the template specification");
+        let r = run_template("a$0b", false);
+        assert!(r.0, "template `a$0b`: expansion length equals the template specification");
+        assert!(r.1, "template `a$0b`: expansion content equals the template specification");
+        let r = run_template("$1$", false);
+        assert!(r.0, "template `$1$`: expansion length equals the template specification");
+        assert!(r.1, "template `$1$`: expansion content equals the template specification");
         kani::cover!(true, "end of the harness is reachable (vacuity guard)");
     }
 
@@ -353,16 +402,36 @@ pub(crate) mod __verif {
     #[kani::proof]
     #[kani::unwind(12)]
     fn j2c_named() {
-        check_template("${n}", false);
-        check_template("${m}", false);
-        check_template("${}", false);
-        check_template("${n", false);
-        check_template("${", false);
-        check_template("${n}${n}", false);
-        check_template("a${n}b", false);
-        check_template("${n}}", false);
-        check_template("${$n}", false);
-        check_template("${nn}", false);
+        let r = run_template("${n}", false);
+        assert!(r.0, "template `${{n}}`: expansion length equals the template specification");
+        assert!(r.1, "template `${{n}}`: expansion content equals the template specification");
+        let r = run_template("${m}", false);
+        assert!(r.0, "template `${{m}}`: expansion length equals the template specification");
+        assert!(r.1, "template `${{m}}`: expansion content equals the template specification");
+        let r = run_template("${}", false);
+        assert!(r.0, "template `${{}}`: expansion length equals the template specification");
+        assert!(r.1, "template `${{}}`: expansion content equals the template specification");
+        let r = run_template("${n", false);
+        assert!(r.0, "template `${{n`: expansion length equals the template specification");
+        assert!(r.1, "template `${{n`: expansion content equals the template specification");
+        let r = run_template("${", false);
+        assert!(r.0, "template `${{`: expansion length equals the template specification");
+        assert!(r.1, "template `${{`: expansion content equals the template specification");
+        let r = run_template("${n}${n}", false);
+        assert!(r.0, "template `${{n}}${{n}}`: expansion length equals the template specification");
+        assert!(r.1, "template `${{n}}${{n}}`: expansion content equals the template specification");
+        let r = run_template("a${n}b", false);
+        assert!(r.0, "template `a${{n}}b`: expansion length equals the template specification");
+        assert!(r.1, "template `a${{n}}b`: expansion content equals the template specification");
+        let r = run_template("${n}}", false);
+        assert!(r.0, "template `${{n}}}}`: expansion length equals the template specification");
+        assert!(r.1, "template `${{n}}}}`: expansion content equals the template specification");
+        let r = run_template("${$n}", false);
+        assert!(r.0, "template `${{$n}}`: expansion length equals the template specification");
+        assert!(r.1, "template `${{$n}}`: expansion content equals the template specification");
+        let r = run_template("${nn}", false);
+        assert!(r.0, "template `${{nn}}`: expansion length equals the template specification");
+        assert!(r.1, "template `${{nn}}`: expansion content equals the template specification");
         kani::cover!(true, "end of the harness is reachable (vacuity guard)");
     }
 
@@ -372,10 +441,18 @@ pub(crate) mod __verif {
     #[kani::proof]
     #[kani::unwind(10)]
     fn j2c_multibyte() {
-        check_template("$0", true);
-        check_template("$1é", true);
-        check_template("é${n}", true);
-        check_template("$$é$", true);
+        let r = run_template("$0", true);
+        assert!(r.0, "template `$0`: expansion length equals the template specification");
+        assert!(r.1, "template `$0`: expansion content equals the template specification");
+        let r = run_template("$1é", true);
+        assert!(r.0, "template `$1é`: expansion length equals the template specification");
+        assert!(r.1, "template `$1é`: expansion content equals the template specification");
+        let r = run_template("é${n}", true);
+        assert!(r.0, "template `é${{n}}`: expansion length equals the template specification");
+        assert!(r.1, "template `é${{n}}`: expansion content equals the template specification");
+        let r = run_template("$$é$", true);
+        assert!(r.0, "template `$$é$`: expansion length equals the template specification");
+        assert!(r.1, "template `$$é$`: expansion content equals the template specification");
         kani::cover!(true, "end of the harness is reachable (vacuity guard)");
     }
 
@@ -385,9 +462,15 @@ pub(crate) mod __verif {
     #[kani::proof]
     #[kani::unwind(12)]
     fn j2c_digit_run_small() {
-        check_template("$000001", false);
-        check_template("$65535", false);
-        check_template("$0000000", false);
+        let r = run_template("$000001", false);
+        assert!(r.0, "template `$000001`: expansion length equals the template specification");
+        assert!(r.1, "template `$000001`: expansion content equals the template specification");
+        let r = run_template("$65535", false);
+        assert!(r.0, "template `$65535`: expansion length equals the template specification");
+        assert!(r.1, "template `$65535`: expansion content equals the template specification");
+        let r = run_template("$0000000", false);
+        assert!(r.0, "template `$0000000`: expansion length equals the template specification");
+        assert!(r.1, "template `$0000000`: expansion content equals the template specification");
         kani::cover!(true, "end of the harness is reachable (vacuity guard)");
     }
 
@@ -397,10 +480,18 @@ pub(crate) mod __verif {
     #[kani::proof]
     #[kani::unwind(12)]
     fn j2c_digit_run_cap() {
-        check_template("$65536", false);
-        check_template("$655360", false);
-        check_template("$1234567", false);
-        check_template("$65536a", false);
+        let r = run_template("$65536", false);
+        assert!(r.0, "template `$65536`: expansion length equals the template specification");
+        assert!(r.1, "template `$65536`: expansion content equals the template specification");
+        let r = run_template("$655360", false);
+        assert!(r.0, "template `$655360`: expansion length equals the template specification");
+        assert!(r.1, "template `$655360`: expansion content equals the template specification");
+        let r = run_template("$1234567", false);
+        assert!(r.0, "template `$1234567`: expansion length equals the template specification");
+        assert!(r.1, "template `$1234567`: expansion content equals the template specification");
+        let r = run_template("$65536a", false);
+        assert!(r.0, "template `$65536a`: expansion length equals the template specification");
+        assert!(r.1, "template `$65536a`: expansion content equals the template specification");
         kani::cover!(true, "end of the harness is reachable (vacuity guard)");
     }
 
@@ -410,8 +501,12 @@ pub(crate) mod __verif {
     #[kani::proof]
     #[kani::unwind(25)]
     fn j2c_digit_run_huge() {
-        check_template("$99999999999999999999", false);
-        check_template("$18446744073709551616", false);
+        let r = run_template("$99999999999999999999", false);
+        assert!(r.0, "template `$99999999999999999999`: expansion length equals the template specification");
+        assert!(r.1, "template `$99999999999999999999`: expansion content equals the template specification");
+        let r = run_template("$18446744073709551616", false);
+        assert!(r.0, "template `$18446744073709551616`: expansion length equals the template specification");
+        assert!(r.1, "template `$18446744073709551616`: expansion content equals the template specification");
         kani::cover!(true, "end of the harness is reachable (vacuity guard)");
     }
 
@@ -421,12 +516,24 @@ pub(crate) mod __verif {
     #[kani::proof]
     #[kani::unwind(5)]
     fn j2c_all3_00() {
-        check_template("", false);
-        check_template("$", false);
-        check_template("1", false);
-        check_template("{", false);
-        check_template("}", false);
-        check_template("n", false);
+        let r = run_template("", false);
+        assert!(r.0, "template ``: expansion length equals the template specification");
+        assert!(r.1, "template ``: expansion content equals the template specification");
+        let r = run_template("$", false);
+        assert!(r.0, "template `$`: expansion length equals the template specification");
+        assert!(r.1, "template `$`: expansion content equals the template specification");
+        let r = run_template("1", false);
+        assert!(r.0, "template `1`: expansion length equals the template specification");
+        assert!(r.1, "template `1`: expansion content equals the template specification");
+        let r = run_template("{", false);
+        assert!(r.0, "template `{{`: expansion length equals the template specification");
+        assert!(r.1, "template `{{`: expansion content equals the template specification");
+        let r = run_template("}", false);
+        assert!(r.0, "template `}}`: expansion length equals the template specification");
+        assert!(r.1, "template `}}`: expansion content equals the template specification");
+        let r = run_template("n", false);
+        assert!(r.0, "template `n`: expansion length equals the template specification");
+        assert!(r.1, "template `n`: expansion content equals the template specification");
         kani::cover!(true, "end of the harness is reachable (vacuity guard)");
     }
 
@@ -436,12 +543,24 @@ pub(crate) mod __verif {
     #[kani::proof]
     #[kani::unwind(6)]
     fn j2c_all3_01() {
-        check_template("$$", false);
-        check_template("$1", false);
-        check_template("${", false);
-        check_template("$}", false);
-        check_template("$n", false);
-        check_template("1$", false);
+        let r = run_template("$$", false);
+        assert!(r.0, "template `$$`: expansion length equals the template specification");
+        assert!(r.1, "template `$$`: expansion content equals the template specification");
+        let r = run_template("$1", false);
+        assert!(r.0, "template `$1`: expansion length equals the template specification");
+        assert!(r.1, "template `$1`: expansion content equals the template specification");
+        let r = run_template("${", false);
+        assert!(r.0, "template `${{`: expansion length equals the template specification");
+        assert!(r.1, "template `${{`: expansion content equals the template specification");
+        let r = run_template("$}", false);
+        assert!(r.0, "template `$}}`: expansion length equals the template specification");
+        assert!(r.1, "template `$}}`: expansion content equals the template specification");
+        let r = run_template("$n", false);
+        assert!(r.0, "template `$n`: expansion length equals the template specification");
+        assert!(r.1, "template `$n`: expansion content equals the template specification");
+        let r = run_template("1$", false);
+        assert!(r.0, "template `1$`: expansion length equals the template specification");
+        assert!(r.1, "template `1$`: expansion content equals the template specification");
         kani::cover!(true, "end of the harness is reachable (vacuity guard)");
     }
 
@@ -451,12 +570,24 @@ pub(crate) mod __verif {
     #[kani::proof]
     #[kani::unwind(6)]
     fn j2c_all3_02() {
-        check_template("11", false);
-        check_template("1{", false);
-        check_template("1}", false);
-        check_template("1n", false);
-        check_template("{$", false);
-        check_template("{1", false);
+        let r = run_template("11", false);
+        assert!(r.0, "template `11`: expansion length equals the template specification");
+        assert!(r.1, "template `11`: expansion content equals the template specification");
+        let r = run_template("1{", false);
+        assert!(r.0, "template `1{{`: expansion length equals the template specification");
+        assert!(r.1, "template `1{{`: expansion content equals the template specification");
+        let r = run_template("1}", false);
+        assert!(r.0, "template `1}}`: expansion length equals the template specification");
+        assert!(r.1, "template `1}}`: expansion content equals the template specification");
+        let r = run_template("1n", false);
+        assert!(r.0, "template `1n`: expansion length equals the template specification");
+        assert!(r.1, "template `1n`: expansion content equals the template specification");
+        let r = run_template("{$", false);
+        assert!(r.0, "template `{{$`: expansion length equals the template specification");
+        assert!(r.1, "template `{{$`: expansion content equals the template specification");
+        let r = run_template("{1", false);
+        assert!(r.0, "template `{{1`: expansion length equals the template specification");
+        assert!(r.1, "template `{{1`: expansion content equals the template specification");
         kani::cover!(true, "end of the harness is reachable (vacuity guard)");
     }
 
@@ -466,12 +597,24 @@ pub(crate) mod __verif {
     #[kani::proof]
     #[kani::unwind(6)]
     fn j2c_all3_03() {
-        check_template("{{", false);
-        check_template("{}", false);
-        check_template("{n", false);
-        check_template("}$", false);
-        check_template("}1", false);
-        check_template("}{", false);
+        let r = run_template("{{", false);
+        assert!(r.0, "template `{{{{`: expansion length equals the template specification");
+        assert!(r.1, "template `{{{{`: expansion content equals the template specification");
+        let r = run_template("{}", false);
+        assert!(r.0, "template `{{}}`: expansion length equals the template specification");
+        assert!(r.1, "template `{{}}`: expansion content equals the template specification");
+        let r = run_template("{n", false);
+        assert!(r.0, "template `{{n`: expansion length equals the template specification");
+        assert!(r.1, "template `{{n`: expansion content equals the template specification");
+        let r = run_template("}$", false);
+        assert!(r.0, "template `}}$`: expansion length equals the template specification");
+        assert!(r.1, "template `}}$`: expansion content equals the template specification");
+        let r = run_template("}1", false);
+        assert!(r.0, "template `}}1`: expansion length equals the template specification");
+        assert!(r.1, "template `}}1`: expansion content equals the template specification");
+        let r = run_template("}{", false);
+        assert!(r.0, "template `}}{{`: expansion length equals the template specification");
+        assert!(r.1, "template `}}{{`: expansion content equals the template specification");
         kani::cover!(true, "end of the harness is reachable (vacuity guard)");
     }
 
@@ -481,12 +624,24 @@ pub(crate) mod __verif {
     #[kani::proof]
     #[kani::unwind(6)]
     fn j2c_all3_04() {
-        check_template("}}", false);
-        check_template("}n", false);
-        check_template("n$", false);
-        check_template("n1", false);
-        check_template("n{", false);
-        check_template("n}", false);
+        let r = run_template("}}", false);
+        assert!(r.0, "template `}}}}`: expansion length equals the template specification");
+        assert!(r.1, "template `}}}}`: expansion content equals the template specification");
+        let r = run_template("}n", false);
+        assert!(r.0, "template `}}n`: expansion length equals the template specification");
+        assert!(r.1, "template `}}n`: expansion content equals the template specification");
+        let r = run_template("n$", false);
+        assert!(r.0, "template `n$`: expansion length equals the template specification");
+        assert!(r.1, "template `n$`: expansion content equals the template specification");
+        let r = run_template("n1", false);
+        assert!(r.0, "template `n1`: expansion length equals the template specification");
+        assert!(r.1, "template `n1`: expansion content equals the template specification");
+        let r = run_template("n{", false);
+        assert!(r.0, "template `n{{`: expansion length equals the template specification");
+        assert!(r.1, "template `n{{`: expansion content equals the template specification");
+        let r = run_template("n}", false);
+        assert!(r.0, "template `n}}`: expansion length equals the template specification");
+        assert!(r.1, "template `n}}`: expansion content equals the template specification");
         kani::cover!(true, "end of the harness is reachable (vacuity guard)");
     }
 
@@ -496,12 +651,24 @@ pub(crate) mod __verif {
     #[kani::proof]
     #[kani::unwind(7)]
     fn j2c_all3_05() {
-        check_template("nn", false);
-        check_template("$$$", false);
-        check_template("$$1", false);
-        check_template("$${", false);
-        check_template("$$}", false);
-        check_template("$$n", false);
+        let r = run_template("nn", false);
+        assert!(r.0, "template `nn`: expansion length equals the template specification");
+        assert!(r.1, "template `nn`: expansion content equals the template specification");
+        let r = run_template("$$$", false);
+        assert!(r.0, "template `$$$`: expansion length equals the template specification");
+        assert!(r.1, "template `$$$`: expansion content equals the template specification");
+        let r = run_template("$$1", false);
+        assert!(r.0, "template `$$1`: expansion length equals the template specification");
+        assert!(r.1, "template `$$1`: expansion content equals the template specification");
+        let r = run_template("$${", false);
+        assert!(r.0, "template `$${{`: expansion length equals the template specification");
+        assert!(r.1, "template `$${{`: expansion content equals the template specification");
+        let r = run_template("$$}", false);
+        assert!(r.0, "template `$$}}`: expansion length equals the template specification");
+        assert!(r.1, "template `$$}}`: expansion content equals the template specification");
+        let r = run_template("$$n", false);
+        assert!(r.0, "template `$$n`: expansion length equals the template specification");
+        assert!(r.1, "template `$$n`: expansion content equals the template specification");
         kani::cover!(true, "end of the harness is reachable (vacuity guard)");
     }
 
@@ -511,12 +678,24 @@ pub(crate) mod __verif {
     #[kani::proof]
     #[kani::unwind(7)]
     fn j2c_all3_06() {
-        check_template("$1$", false);
-        check_template("$11", false);
-        check_template("$1{", false);
-        check_template("$1}", false);
-        check_template("$1n", false);
-        check_template("${$", false);
+        let r = run_template("$1$", false);
+        assert!(r.0, "template `$1$`: expansion length equals the template specification");
+        assert!(r.1, "template `$1$`: expansion content equals the template specification");
+        let r = run_template("$11", false);
+        assert!(r.0, "template `$11`: expansion length equals the template specification");
+        assert!(r.1, "template `$11`: expansion content equals the template specification");
+        let r = run_template("$1{", false);
+        assert!(r.0, "template `$1{{`: expansion length equals the template specification");
+        assert!(r.1, "template `$1{{`: expansion content equals the template specification");
+        let r = run_template("$1}", false);
+        assert!(r.0, "template `$1}}`: expansion length equals the template specification");
+        assert!(r.1, "template `$1}}`: expansion content equals the template specification");
+        let r = run_template("$1n", false);
+        assert!(r.0, "template `$1n`: expansion length equals the template specification");
+        assert!(r.1, "template `$1n`: expansion content equals the template specification");
+        let r = run_template("${$", false);
+        assert!(r.0, "template `${{$`: expansion length equals the template specification");
+        assert!(r.1, "template `${{$`: expansion content equals the template specification");
         kani::cover!(true, "end of the harness is reachable (vacuity guard)");
     }
 
@@ -526,12 +705,24 @@ pub(crate) mod __verif {
     #[kani::proof]
     #[kani::unwind(7)]
     fn j2c_all3_07() {
-        check_template("${1", false);
-        check_template("${{", false);
-        check_template("${}", false);
-        check_template("${n", false);
-        check_template("$}$", false);
-        check_template("$}1", false);
+        let r = run_template("${1", false);
+        assert!(r.0, "template `${{1`: expansion length equals the template specification");
+        assert!(r.1, "template `${{1`: expansion content equals the template specification");
+        let r = run_template("${{", false);
+        assert!(r.0, "template `${{{{`: expansion length equals the template specification");
+        assert!(r.1, "template `${{{{`: expansion content equals the template specification");
+        let r = run_template("${}", false);
+        assert!(r.0, "template `${{}}`: expansion length equals the template specification");
+        assert!(r.1, "template `${{}}`: expansion content equals the template specification");
+        let r = run_template("${n", false);
+        assert!(r.0, "template `${{n`: expansion length equals the template specification");
+        assert!(r.1, "template `${{n`: expansion content equals the template specification");
+        let r = run_template("$}$", false);
+        assert!(r.0, "template `$}}$`: expansion length equals the template specification");
+        assert!(r.1, "template `$}}$`: expansion content equals the template specification");
+        let r = run_template("$}1", false);
+        assert!(r.0, "template `$}}1`: expansion length equals the template specification");
+        assert!(r.1, "template `$}}1`: expansion content equals the template specification");
         kani::cover!(true, "end of the harness is reachable (vacuity guard)");
     }
 
@@ -541,12 +732,24 @@ pub(crate) mod __verif {
     #[kani::proof]
     #[kani::unwind(7)]
     fn j2c_all3_08() {
-        check_template("$}{", false);
-        check_template("$}}", false);
-        check_template("$}n", false);
-        check_template("$n$", false);
-        check_template("$n1", false);
-        check_template("$n{", false);
+        let r = run_template("$}{", false);
+        assert!(r.0, "template `$}}{{`: expansion length equals the template specification");
+        assert!(r.1, "template `$}}{{`: expansion content equals the template specification");
+        let r = run_template("$}}", false);
+        assert!(r.0, "template `$}}}}`: expansion length equals the template specification");
+        assert!(r.1, "template `$}}}}`: expansion content equals the template specification");
+        let r = run_template("$}n", false);
+        assert!(r.0, "template `$}}n`: expansion length equals the template specification");
+        assert!(r.1, "template `$}}n`: expansion content equals the template specification");
+        let r = run_template("$n$", false);
+        assert!(r.0, "template `$n$`: expansion length equals the template specification");
+        assert!(r.1, "template `$n$`: expansion content equals the template specification");
+        let r = run_template("$n1", false);
+        assert!(r.0, "template `$n1`: expansion length equals the template specification");
+        assert!(r.1, "template `$n1`: expansion content equals the template specification");
+        let r = run_template("$n{", false);
+        assert!(r.0, "template `$n{{`: expansion length equals the template specification");
+        assert!(r.1, "template `$n{{`: expansion content equals the template specification");
         kani::cover!(true, "end of the harness is reachable (vacuity guard)");
     }
 
@@ -556,12 +759,24 @@ pub(crate) mod __verif {
     #[kani::proof]
     #[kani::unwind(7)]
     fn j2c_all3_09() {
-        check_template("$n}", false);
-        check_template("$nn", false);
-        check_template("1$$", false);
-        check_template("1$1", false);
-        check_template("1${", false);
-        check_template("1$}", false);
+        let r = run_template("$n}", false);
+        assert!(r.0, "template `$n}}`: expansion length equals the template specification");
+        assert!(r.1, "template `$n}}`: expansion content equals the template specification");
+        let r = run_template("$nn", false);
+        assert!(r.0, "template `$nn`: expansion length equals the template specification");
+        assert!(r.1, "template `$nn`: expansion content equals the template specification");
+        let r = run_template("1$$", false);
+        assert!(r.0, "template `1$$`: expansion length equals the template specification");
+        assert!(r.1, "template `1$$`: expansion content equals the template specification");
+        let r = run_template("1$1", false);
+        assert!(r.0, "template `1$1`: expansion length equals the template specification");
+        assert!(r.1, "template `1$1`: expansion content equals the template specification");
+        let r = run_template("1${", false);
+        assert!(r.0, "template `1${{`: expansion length equals the template specification");
+        assert!(r.1, "template `1${{`: expansion content equals the template specification");
+        let r = run_template("1$}", false);
+        assert!(r.0, "template `1$}}`: expansion length equals the template specification");
+        assert!(r.1, "template `1$}}`: expansion content equals the template specification");
         kani::cover!(true, "end of the harness is reachable (vacuity guard)");
     }
 
@@ -571,12 +786,24 @@ pub(crate) mod __verif {
     #[kani::proof]
     #[kani::unwind(7)]
     fn j2c_all3_10() {
-        check_template("1$n", false);
-        check_template("11$", false);
-        check_template("111", false);
-        check_template("11{", false);
-        check_template("11}", false);
-        check_template("11n", false);
+        let r = run_template("1$n", false);
+        assert!(r.0, "template `1$n`: expansion length equals the template specification");
+        assert!(r.1, "template `1$n`: expansion content equals the template specification");
+        let r = run_template("11$", false);
+        assert!(r.0, "template `11$`: expansion length equals the template specification");
+        assert!(r.1, "template `11$`: expansion content equals the template specification");
+        let r = run_template("111", false);
+        assert!(r.0, "template `111`: expansion length equals the template specification");
+        assert!(r.1, "template `111`: expansion content equals the template specification");
+        let r = run_template("11{", false);
+        assert!(r.0, "template `11{{`: expansion length equals the template specification");
+        assert!(r.1, "template `11{{`: expansion content equals the template specification");
+        let r = run_template("11}", false);
+        assert!(r.0, "template `11}}`: expansion length equals the template specification");
+        assert!(r.1, "template `11}}`: expansion content equals the template specification");
+        let r = run_template("11n", false);
+        assert!(r.0, "template `11n`: expansion length equals the template specification");
+        assert!(r.1, "template `11n`: expansion content equals the template specification");
         kani::cover!(true, "end of the harness is reachable (vacuity guard)");
     }
 
@@ -586,12 +813,24 @@ pub(crate) mod __verif {
     #[kani::proof]
     #[kani::unwind(7)]
     fn j2c_all3_11() {
-        check_template("1{$", false);
-        check_template("1{1", false);
-        check_template("1{{", false);
-        check_template("1{}", false);
-        check_template("1{n", false);
-        check_template("1}$", false);
+        let r = run_template("1{$", false);
+        assert!(r.0, "template `1{{$`: expansion length equals the template specification");
+        assert!(r.1, "template `1{{$`: expansion content equals the template specification");
+        let r = run_template("1{1", false);
+        assert!(r.0, "template `1{{1`: expansion length equals the template specification");
+        assert!(r.1, "template `1{{1`: expansion content equals the template specification");
+        let r = run_template("1{{", false);
+        assert!(r.0, "template `1{{{{`: expansion length equals the template specification");
+        assert!(r.1, "template `1{{{{`: expansion content equals the template specification");
+        let r = run_template("1{}", false);
+        assert!(r.0, "template `1{{}}`: expansion length equals the template specification");
+        assert!(r.1, "template `1{{}}`: expansion content equals the template specification");
+        let r = run_template("1{n", false);
+        assert!(r.0, "template `1{{n`: expansion length equals the template specification");
+        assert!(r.1, "template `1{{n`: expansion content equals the template specification");
+        let r = run_template("1}$", false);
+        assert!(r.0, "template `1}}$`: expansion length equals the template specification");
+        assert!(r.1, "template `1}}$`: expansion content equals the template specification");
         kani::cover!(true, "end of the harness is reachable (vacuity guard)");
     }
 
@@ -601,12 +840,24 @@ pub(crate) mod __verif {
     #[kani::proof]
     #[kani::unwind(7)]
     fn j2c_all3_12() {
-        check_template("1}1", false);
-        check_template("1}{", false);
-        check_template("1}}", false);
-        check_template("1}n", false);
-        check_template("1n$", false);
-        check_template("1n1", false);
+        let r = run_template("1}1", false);
+        assert!(r.0, "template `1}}1`: expansion length equals the template specification");
+        assert!(r.1, "template `1}}1`: expansion content equals the template specification");
+        let r = run_template("1}{", false);
+        assert!(r.0, "template `1}}{{`: expansion length equals the template specification");
+        assert!(r.1, "template `1}}{{`: expansion content equals the template specification");
+        let r = run_template("1}}", false);
+        assert!(r.0, "template `1}}}}`: expansion length equals the template specification");
+        assert!(r.1, "template `1}}}}`: expansion content equals the template specification");
+        let r = run_template("1}n", false);
+        assert!(r.0, "template `1}}n`: expansion length equals the template specification");
+        assert!(r.1, "template `1}}n`: expansion content equals the template specification");
+        let r = run_template("1n$", false);
+        assert!(r.0, "template `1n$`: expansion length equals the template specification");
+        assert!(r.1, "template `1n$`: expansion content equals the template specification");
+        let r = run_template("1n1", false);
+        assert!(r.0, "template `1n1`: expansion length equals the template specification");
+        assert!(r.1, "template `1n1`: expansion content equals the template specification");
         kani::cover!(true, "end of the harness is reachable (vacuity guard)");
     }
 
@@ -616,12 +867,24 @@ pub(crate) mod __verif {
     #[kani::proof]
     #[kani::unwind(7)]
     fn j2c_all3_13() {
-        check_template("1n{", false);
-        check_template("1n}", false);
-        check_template("1nn", false);
-        check_template("{$$", false);
-        check_template("{$1", false);
-        check_template("{${", false);
+        let r = run_template("1n{", false);
+        assert!(r.0, "template `1n{{`: expansion length equals the template specification");
+        assert!(r.1, "template `1n{{`: expansion content equals the template specification");
+        let r = run_template("1n}", false);
+        assert!(r.0, "template `1n}}`: expansion length equals the template specification");
+        assert!(r.1, "template `1n}}`: expansion content equals the template specification");
+        let r = run_template("1nn", false);
+        assert!(r.0, "template `1nn`: expansion length equals the template specification");
+        assert!(r.1, "template `1nn`: expansion content equals the template specification");
+        let r = run_template("{$$", false);
+        assert!(r.0, "template `{{$$`: expansion length equals the template specification");
+        assert!(r.1, "template `{{$$`: expansion content equals the template specification");
+        let r = run_template("{$1", false);
+        assert!(r.0, "template `{{$1`: expansion length equals the template specification");
+        assert!(r.1, "template `{{$1`: expansion content equals the template specification");
+        let r = run_template("{${", false);
+        assert!(r.0, "template `{{${{`: expansion length equals the template specification");
+        assert!(r.1, "template `{{${{`: expansion content equals the template specification");
         kani::cover!(true, "end of the harness is reachable (vacuity guard)");
     }
 
@@ -631,12 +894,24 @@ pub(crate) mod __verif {
     #[kani::proof]
     #[kani::unwind(7)]
     fn j2c_all3_14() {
-        check_template("{$}", false);
-        check_template("{$n", false);
-        check_template("{1$", false);
-        check_template("{11", false);
-        check_template("{1{", false);
-        check_template("{1}", false);
+        let r = run_template("{$}", false);
+        assert!(r.0, "template `{{$}}`: expansion length equals the template specification");
+        assert!(r.1, "template `{{$}}`: expansion content equals the template specification");
+        let r = run_template("{$n", false);
+        assert!(r.0, "template `{{$n`: expansion length equals the template specification");
+        assert!(r.1, "template `{{$n`: expansion content equals the template specification");
+        let r = run_template("{1$", false);
+        assert!(r.0, "template `{{1$`: expansion length equals the template specification");
+        assert!(r.1, "template `{{1$`: expansion content equals the template specification");
+        let r = run_template("{11", false);
+        assert!(r.0, "template `{{11`: expansion length equals the template specification");
+        assert!(r.1, "template `{{11`: expansion content equals the template specification");
+        let r = run_template("{1{", false);
+        assert!(r.0, "template `{{1{{`: expansion length equals the template specification");
+        assert!(r.1, "template `{{1{{`: expansion content equals the template specification");
+        let r = run_template("{1}", false);
+        assert!(r.0, "template `{{1}}`: expansion length equals the template specification");
+        assert!(r.1, "template `{{1}}`: expansion content equals the template specification");
         kani::cover!(true, "end of the harness is reachable (vacuity guard)");
     }
 
@@ -646,12 +921,24 @@ pub(crate) mod __verif {
     #[kani::proof]
     #[kani::unwind(7)]
     fn j2c_all3_15() {
-        check_template("{1n", false);
-        check_template("{{$", false);
-        check_template("{{1", false);
-        check_template("{{{", false);
-        check_template("{{}", false);
-        check_template("{{n", false);
+        let r = run_template("{1n", false);
+        assert!(r.0, "template `{{1n`: expansion length equals the template specification");
+        assert!(r.1, "template `{{1n`: expansion content equals the template specification");
+        let r = run_template("{{$", false);
+        assert!(r.0, "template `{{{{$`: expansion length equals the template specification");
+        assert!(r.1, "template `{{{{$`: expansion content equals the template specification");
+        let r = run_template("{{1", false);
+        assert!(r.0, "template `{{{{1`: expansion length equals the template specification");
+        assert!(r.1, "template `{{{{1`: expansion content equals the template specification");
+        let r = run_template("{{{", false);
+        assert!(r.0, "template `{{{{{{`: expansion length equals the template specification");
+        assert!(r.1, "template `{{{{{{`: expansion content equals the template specification");
+        let r = run_template("{{}", false);
+        assert!(r.0, "template `{{{{}}`: expansion length equals the template specification");
+        assert!(r.1, "template `{{{{}}`: expansion content equals the template specification");
+        let r = run_template("{{n", false);
+        assert!(r.0, "template `{{{{n`: expansion length equals the template specification");
+        assert!(r.1, "template `{{{{n`: expansion content equals the template specification");
         kani::cover!(true, "end of the harness is reachable (vacuity guard)");
     }
 
@@ -661,12 +948,24 @@ pub(crate) mod __verif {
     #[kani::proof]
     #[kani::unwind(7)]
     fn j2c_all3_16() {
-        check_template("{}$", false);
-        check_template("{}1", false);
-        check_template("{}{", false);
-        check_template("{}}", false);
-        check_template("{}n", false);
-        check_template("{n$", false);
+        let r = run_template("{}$", false);
+        assert!(r.0, "template `{{}}$`: expansion length equals the template specification");
+        assert!(r.1, "template `{{}}$`: expansion content equals the template specification");
+        let r = run_template("{}1", false);
+        assert!(r.0, "template `{{}}1`: expansion length equals the template specification");
+        assert!(r.1, "template `{{}}1`: expansion content equals the template specification");
+        let r = run_template("{}{", false);
+        assert!(r.0, "template `{{}}{{`: expansion length equals the template specification");
+        assert!(r.1, "template `{{}}{{`: expansion content equals the template specification");
+        let r = run_template("{}}", false);
+        assert!(r.0, "template `{{}}}}`: expansion length equals the template specification");
+        assert!(r.1, "template `{{}}}}`: expansion content equals the template specification");
+        let r = run_template("{}n", false);
+        assert!(r.0, "template `{{}}n`: expansion length equals the template specification");
+        assert!(r.1, "template `{{}}n`: expansion content equals the template specification");
+        let r = run_template("{n$", false);
+        assert!(r.0, "template `{{n$`: expansion length equals the template specification");
+        assert!(r.1, "template `{{n$`: expansion content equals the template specification");
         kani::cover!(true, "end of the harness is reachable (vacuity guard)");
     }
 
@@ -676,12 +975,24 @@ pub(crate) mod __verif {
     #[kani::proof]
     #[kani::unwind(7)]
     fn j2c_all3_17() {
-        check_template("{n1", false);
-        check_template("{n{", false);
-        check_template("{n}", false);
-        check_template("{nn", false);
-        check_template("}$$", false);
-        check_template("}$1", false);
+        let r = run_template("{n1", false);
+        assert!(r.0, "template `{{n1`: expansion length equals the template specification");
+        assert!(r.1, "template `{{n1`: expansion content equals the template specification");
+        let r = run_template("{n{", false);
+        assert!(r.0, "template `{{n{{`: expansion length equals the template specification");
+        assert!(r.1, "template `{{n{{`: expansion content equals the template specification");
+        let r = run_template("{n}", false);
+        assert!(r.0, "template `{{n}}`: expansion length equals the template specification");
+        assert!(r.1, "template `{{n}}`: expansion content equals the template specification");
+        let r = run_template("{nn", false);
+        assert!(r.0, "template `{{nn`: expansion length equals the template specification");
+        assert!(r.1, "template `{{nn`: expansion content equals the template specification");
+        let r = run_template("}$$", false);
+        assert!(r.0, "template `}}$$`: expansion length equals the template specification");
+        assert!(r.1, "template `}}$$`: expansion content equals the template specification");
+        let r = run_template("}$1", false);
+        assert!(r.0, "template `}}$1`: expansion length equals the template specification");
+        assert!(r.1, "template `}}$1`: expansion content equals the template specification");
         kani::cover!(true, "end of the harness is reachable (vacuity guard)");
     }
 
@@ -691,12 +1002,24 @@ pub(crate) mod __verif {
     #[kani::proof]
     #[kani::unwind(7)]
     fn j2c_all3_18() {
-        check_template("}${", false);
-        check_template("}$}", false);
-        check_template("}$n", false);
-        check_template("}1$", false);
-        check_template("}11", false);
-        check_template("}1{", false);
+        let r = run_template("}${", false);
+        assert!(r.0, "template `}}${{`: expansion length equals the template specification");
+        assert!(r.1, "template `}}${{`: expansion content equals the template specification");
+        let r = run_template("}$}", false);
+        assert!(r.0, "template `}}$}}`: expansion length equals the template specification");
+        assert!(r.1, "template `}}$}}`: expansion content equals the template specification");
+        let r = run_template("}$n", false);
+        assert!(r.0, "template `}}$n`: expansion length equals the template specification");
+        assert!(r.1, "template `}}$n`: expansion content equals the template specification");
+        let r = run_template("}1$", false);
+        assert!(r.0, "template `}}1$`: expansion length equals the template specification");
+        assert!(r.1, "template `}}1$`: expansion content equals the template specification");
+        let r = run_template("}11", false);
+        assert!(r.0, "template `}}11`: expansion length equals the template specification");
+        assert!(r.1, "template `}}11`: expansion content equals the template specification");
+        let r = run_template("}1{", false);
+        assert!(r.0, "template `}}1{{`: expansion length equals the template specification");
+        assert!(r.1, "template `}}1{{`: expansion content equals the template specification");
         kani::cover!(true, "end of the harness is reachable (vacuity guard)");
     }
 
@@ -706,12 +1029,24 @@ pub(crate) mod __verif {
     #[kani::proof]
     #[kani::unwind(7)]
     fn j2c_all3_19() {
-        check_template("}1}", false);
-        check_template("}1n", false);
-        check_template("}{$", false);
-        check_template("}{1", false);
-        check_template("}{{", false);
-        check_template("}{}", false);
+        let r = run_template("}1}", false);
+        assert!(r.0, "template `}}1}}`: expansion length equals the template specification");
+        assert!(r.1, "template `}}1}}`: expansion content equals the template specification");
+        let r = run_template("}1n", false);
+        assert!(r.0, "template `}}1n`: expansion length equals the template specification");
+        assert!(r.1, "template `}}1n`: expansion content equals the template specification");
+        let r = run_template("}{$", false);
+        assert!(r.0, "template `}}{{$`: expansion length equals the template specification");
+        assert!(r.1, "template `}}{{$`: expansion content equals the template specification");
+        let r = run_template("}{1", false);
+        assert!(r.0, "template `}}{{1`: expansion length equals the template specification");
+        assert!(r.1, "template `}}{{1`: expansion content equals the template specification");
+        let r = run_template("}{{", false);
+        assert!(r.0, "template `}}{{{{`: expansion length equals the template specification");
+        assert!(r.1, "template `}}{{{{`: expansion content equals the template specification");
+        let r = run_template("}{}", false);
+        assert!(r.0, "template `}}{{}}`: expansion length equals the template specification");
+        assert!(r.1, "template `}}{{}}`: expansion content equals the template specification");
         kani::cover!(true, "end of the harness is reachable (vacuity guard)");
     }
 
@@ -721,12 +1056,24 @@ pub(crate) mod __verif {
     #[kani::proof]
     #[kani::unwind(7)]
     fn j2c_all3_20() {
-        check_template("}{n", false);
-        check_template("}}$", false);
-        check_template("}}1", false);
-        check_template("}}{", false);
-        check_template("}}}", false);
-        check_template("}}n", false);
+        let r = run_template("}{n", false);
+        assert!(r.0, "template `}}{{n`: expansion length equals the template specification");
+        assert!(r.1, "template `}}{{n`: expansion content equals the template specification");
+        let r = run_template("}}$", false);
+        assert!(r.0, "template `}}}}$`: expansion length equals the template specification");
+        assert!(r.1, "template `}}}}$`: expansion content equals the template specification");
+        let r = run_template("}}1", false);
+        assert!(r.0, "template `}}}}1`: expansion length equals the template specification");
+        assert!(r.1, "template `}}}}1`: expansion content equals the template specification");
+        let r = run_template("}}{", false);
+        assert!(r.0, "template `}}}}{{`: expansion length equals the template specification");
+        assert!(r.1, "template `}}}}{{`: expansion content equals the template specification");
+        let r = run_template("}}}", false);
+        assert!(r.0, "template `}}}}}}`: expansion length equals the template specification");
+        assert!(r.1, "template `}}}}}}`: expansion content equals the template specification");
+        let r = run_template("}}n", false);
+        assert!(r.0, "template `}}}}n`: expansion length equals the template specification");
+        assert!(r.1, "template `}}}}n`: expansion content equals the template specification");
         kani::cover!(true, "end of the harness is reachable (vacuity guard)");
     }
 
@@ -736,12 +1083,24 @@ pub(crate) mod __verif {
     #[kani::proof]
     #[kani::unwind(7)]
     fn j2c_all3_21() {
-        check_template("}n$", false);
-        check_template("}n1", false);
-        check_template("}n{", false);
-        check_template("}n}", false);
-        check_template("}nn", false);
-        check_template("n$$", false);
+        let r = run_template("}n$", false);
+        assert!(r.0, "template `}}n$`: expansion length equals the template specification");
+        assert!(r.1, "template `}}n$`: expansion content equals the template specification");
+        let r = run_template("}n1", false);
+        assert!(r.0, "template `}}n1`: expansion length equals the template specification");
+        assert!(r.1, "template `}}n1`: expansion content equals the template specification");
+        let r = run_template("}n{", false);
+        assert!(r.0, "template `}}n{{`: expansion length equals the template specification");
+        assert!(r.1, "template `}}n{{`: expansion content equals the template specification");
+        let r = run_template("}n}", false);
+        assert!(r.0, "template `}}n}}`: expansion length equals the template specification");
+        assert!(r.1, "template `}}n}}`: expansion content equals the template specification");
+        let r = run_template("}nn", false);
+        assert!(r.0, "template `}}nn`: expansion length equals the template specification");
+        assert!(r.1, "template `}}nn`: expansion content equals the template specification");
+        let r = run_template("n$$", false);
+        assert!(r.0, "template `n$$`: expansion length equals the template specification");
+        assert!(r.1, "template `n$$`: expansion content equals the template specification");
         kani::cover!(true, "end of the harness is reachable (vacuity guard)");
     }
 
@@ -751,12 +1110,24 @@ pub(crate) mod __verif {
     #[kani::proof]
     #[kani::unwind(7)]
     fn j2c_all3_22() {
-        check_template("n$1", false);
-        check_template("n${", false);
-        check_template("n$}", false);
-        check_template("n$n", false);
-        check_template("n1$", false);
-        check_template("n11", false);
+        let r = run_template("n$1", false);
+        assert!(r.0, "template `n$1`: expansion length equals the template specification");
+        assert!(r.1, "template `n$1`: expansion content equals the template specification");
+        let r = run_template("n${", false);
+        assert!(r.0, "template `n${{`: expansion length equals the template specification");
+        assert!(r.1, "template `n${{`: expansion content equals the template specification");
+        let r = run_template("n$}", false);
+        assert!(r.0, "template `n$}}`: expansion length equals the template specification");
+        assert!(r.1, "template `n$}}`: expansion content equals the template specification");
+        let r = run_template("n$n", false);
+        assert!(r.0, "template `n$n`: expansion length equals the template specification");
+        assert!(r.1, "template `n$n`: expansion content equals the template specification");
+        let r = run_template("n1$", false);
+        assert!(r.0, "template `n1$`: expansion length equals the template specification");
+        assert!(r.1, "template `n1$`: expansion content equals the template specification");
+        let r = run_template("n11", false);
+        assert!(r.0, "template `n11`: expansion length equals the template specification");
+        assert!(r.1, "template `n11`: expansion content equals the template specification");
         kani::cover!(true, "end of the harness is reachable (vacuity guard)");
     }
 
@@ -766,12 +1137,24 @@ pub(crate) mod __verif {
     #[kani::proof]
     #[kani::unwind(7)]
     fn j2c_all3_23() {
-        check_template("n1{", false);
-        check_template("n1}", false);
-        check_template("n1n", false);
-        check_template("n{$", false);
-        check_template("n{1", false);
-        check_template("n{{", false);
+        let r = run_template("n1{", false);
+        assert!(r.0, "template `n1{{`: expansion length equals the template specification");
+        assert!(r.1, "template `n1{{`: expansion content equals the template specification");
+        let r = run_template("n1}", false);
+        assert!(r.0, "template `n1}}`: expansion length equals the template specification");
+        assert!(r.1, "template `n1}}`: expansion content equals the template specification");
+        let r = run_template("n1n", false);
+        assert!(r.0, "template `n1n`: expansion length equals the template specification");
+        assert!(r.1, "template `n1n`: expansion content equals the template specification");
+        let r = run_template("n{$", false);
+        assert!(r.0, "template `n{{$`: expansion length equals the template specification");
+        assert!(r.1, "template `n{{$`: expansion content equals the template specification");
+        let r = run_template("n{1", false);
+        assert!(r.0, "template `n{{1`: expansion length equals the template specification");
+        assert!(r.1, "template `n{{1`: expansion content equals the template specification");
+        let r = run_template("n{{", false);
+        assert!(r.0, "template `n{{{{`: expansion length equals the template specification");
+        assert!(r.1, "template `n{{{{`: expansion content equals the template specification");
         kani::cover!(true, "end of the harness is reachable (vacuity guard)");
     }
 
@@ -781,12 +1164,24 @@ pub(crate) mod __verif {
     #[kani::proof]
     #[kani::unwind(7)]
     fn j2c_all3_24() {
-        check_template("n{}", false);
-        check_template("n{n", false);
-        check_template("n}$", false);
-        check_template("n}1", false);
-        check_template("n}{", false);
-        check_template("n}}", false);
+        let r = run_template("n{}", false);
+        assert!(r.0, "template `n{{}}`: expansion length equals the template specification");
+        assert!(r.1, "template `n{{}}`: expansion content equals the template specification");
+        let r = run_template("n{n", false);
+        assert!(r.0, "template `n{{n`: expansion length equals the template specification");
+        assert!(r.1, "template `n{{n`: expansion content equals the template specification");
+        let r = run_template("n}$", false);
+        assert!(r.0, "template `n}}$`: expansion length equals the template specification");
+        assert!(r.1, "template `n}}$`: expansion content equals the template specification");
+        let r = run_template("n}1", false);
+        assert!(r.0, "template `n}}1`: expansion length equals the template specification");
+        assert!(r.1, "template `n}}1`: expansion content equals the template specification");
+        let r = run_template("n}{", false);
+        assert!(r.0, "template `n}}{{`: expansion length equals the template specification");
+        assert!(r.1, "template `n}}{{`: expansion content equals the template specification");
+        let r = run_template("n}}", false);
+        assert!(r.0, "template `n}}}}`: expansion length equals the template specification");
+        assert!(r.1, "template `n}}}}`: expansion content equals the template specification");
         kani::cover!(true, "end of the harness is reachable (vacuity guard)");
     }
 
@@ -796,12 +1191,24 @@ pub(crate) mod __verif {
     #[kani::proof]
     #[kani::unwind(7)]
     fn j2c_all3_25() {
-        check_template("n}n", false);
-        check_template("nn$", false);
-        check_template("nn1", false);
-        check_template("nn{", false);
-        check_template("nn}", false);
-        check_template("nnn", false);
+        let r = run_template("n}n", false);
+        assert!(r.0, "template `n}}n`: expansion length equals the template specification");
+        assert!(r.1, "template `n}}n`: expansion content equals the template specification");
+        let r = run_template("nn$", false);
+        assert!(r.0, "template `nn$`: expansion length equals the template specification");
+        assert!(r.1, "template `nn$`: expansion content equals the template specification");
+        let r = run_template("nn1", false);
+        assert!(r.0, "template `nn1`: expansion length equals the template specification");
+        assert!(r.1, "template `nn1`: expansion content equals the template specification");
+        let r = run_template("nn{", false);
+        assert!(r.0, "template `nn{{`: expansion length equals the template specification");
+        assert!(r.1, "template `nn{{`: expansion content equals the template specification");
+        let r = run_template("nn}", false);
+        assert!(r.0, "template `nn}}`: expansion length equals the template specification");
+        assert!(r.1, "template `nn}}`: expansion content equals the template specification");
+        let r = run_template("nnn", false);
+        assert!(r.0, "template `nnn`: expansion length equals the template specification");
+        assert!(r.1, "template `nnn`: expansion content equals the template specification");
         kani::cover!(true, "end of the harness is reachable (vacuity guard)");
     }
 
